@@ -29,7 +29,14 @@ def run_one(mu, props_filter):
         subprocess.run(["rsync", "-a", "--exclude", ".git", REPO + "/", repo + "/"], check=True)
         os.makedirs(verif)
         shutil.copy(os.path.join(VERIF, "known_findings.json"), verif)
-        for ed in mu["edits"]:
+        if mu.get("revert"):
+            pr = subprocess.run(["git", "apply", "-R", "--unsafe-paths", "--directory=" + repo, os.path.join(VERIF, mu["revert"])],
+                                cwd="/", capture_output=True, text=True)
+            if pr.returncode != 0:
+                pr = subprocess.run(["patch", "-R", "-p1", "-s", "-i", os.path.join(VERIF, mu["revert"])], cwd=repo, capture_output=True, text=True)
+                if pr.returncode != 0:
+                    return (name, "skipped", "fix patch does not reverse-apply: " + (pr.stderr + pr.stdout)[-200:])
+        for ed in mu.get("edits", []):
             path = os.path.join(repo, ed["file"])
             src = open(path).read()
             if src.count(ed["old"]) != 1:
